@@ -69,6 +69,9 @@ def _history(draw, gen: int, max_ops: int):
                 story.append(["error_mode", draw(st.sampled_from(["text", "silent", "empty"])), {str(n): draw(etext)}])
         at = draw(st.integers(0, len(ops)))
         ops[at:at] = story
+    # one history in five: somewhere in the middle the application reloads the client (shutdown + init on the same object)
+    if draw(st.integers(0, 4)) == 0:
+        ops.insert(draw(st.integers(0, len(ops))), ["reinit"])
     return {"inst": inst, "state": state, "ops": ops}
 
 
@@ -90,8 +93,9 @@ def run_history(case, stats: Stats | None):
                         vals.add(f"power:{r['power']}")
             stats.case(case, nt, classes=sorted(x.nt) + sorted(vals) + [f"gen{x.gen}"],
                        sample={"gen": x.gen, "acs": len(case["inst"]["acs"]), "zones": len(case["inst"]["zones"]),
-                               "ops": [[o[0], (o[1] if o[0] in ("version", "error_info", "unknown") else
-                                              (len(o[1]) if isinstance(o[1], (list, dict)) else o[1]))] for o in case["ops"]][:20]})
+                               "ops": [[o[0]] if len(o) < 2 else
+                                       [o[0], (o[1] if o[0] in ("version", "error_info", "unknown") else
+                                               (len(o[1]) if isinstance(o[1], (list, dict)) else o[1]))] for o in case["ops"]][:20]})
     finally:
         x.dispose()
 
@@ -138,7 +142,7 @@ def shards(tier: str):
 
 
 def floors(tier: str):
-    f = {"partial-frame": 50, "auto-variant": 50, "three-frames-one-entity": 50, "twin-clients": 60}
+    f = {"partial-frame": 50, "auto-variant": 50, "three-frames-one-entity": 50, "twin-clients": 60, "reinit": 100}
     for m in ("auto", "heat", "dry", "fan", "cool", "auto_heat", "auto_cool"):
         f[f"mode:{m}"] = 20
     for fan in ("ia_quiet", "ia_turbo", "turbo", "auto"):
